@@ -3,6 +3,8 @@
 -/
 import TinyHttpModel.WireSpec
 import TinyHttpModel.Lemmas.Loop
+import TinyHttpModel.Lemmas.PipelineClosing
+import TinyHttpModel.Props.C09
 
 namespace TH.Props.C12
 open TH
@@ -80,6 +82,418 @@ theorem trace_extends_state (fuel idx : Nat) (s : St) (bs : Bytes) (fin : EndSta
     let t := runLoop fuel idx s bs fin script
     (∃ ds, t.delivered = s.delivered ++ ds) ∧ (∃ o, t.out = s.out ++ o) ∧ (∃ st, t.statuses = s.statuses ++ st) := by
   exact runLoop_ext fuel idx s bs fin script
+
+/-! ### end to end: a pipeline that ends with a request that closes the connection -/
+
+open TH.Props.C09 (CMsg SentBody cmsgBytes wellBodied)
+
+/-- the body of `m` is entirely on the wire and is what the head's framing announces (the body
+    clause of `C09.wellBodied`): a Content-Length body with as many bytes as declared (buffered at
+    parse time or streamed; `Content-Length: 0`), a chunked body made of well-formed chunks and a
+    well-formed terminal chunk, or no body and no framing header.  The framing kinds listed
+    exclude `.upgrade`: a head whose Connection header names `upgrade` has none of them. -/
+def bodyOnWire (m : CMsg) : Prop :=
+  match m.body with
+  | .plain body =>
+    framingOf m.head.headers = .ok ⟨.buffered body.length, some body.length, false⟩ ∨
+    framingOf m.head.headers = .ok ⟨.limited body.length, some body.length, false⟩ ∨
+    (body = [] ∧ framingOf m.head.headers = .ok ⟨.empty, some 0, false⟩)
+  | .chunked cs zero =>
+    framingOf m.head.headers = .ok ⟨.chunked, none, false⟩ ∧
+    (∀ c ∈ cs, Spec.wfChunk c = true) ∧
+    (usizeFromHex zero = some 0 ∧ zero.all (fun b => b != 13 && b != 59 && b < 128) = true ∧
+      trim zero = zero)
+  | .absent => framingOf m.head.headers = .ok ⟨.empty, none, false⟩
+
+/-- a well-formed request of a supported version that ENDS the connection (`isLastRequest`: by
+    `last_request_decision` an HTTP/1.1 request whose Connection header contains `close`, or an
+    HTTP/1.0 request without `Connection: keep-alive`), no Expect, its body — Content-Length,
+    chunked or absent — entirely on the wire.  Requests naming `upgrade` in Connection are not
+    covered (`bodyOnWire` excludes their framing): their body is the rest of the stream. -/
+def closingRequest (m : CMsg) : Prop :=
+  Spec.wfHead m.head = true ∧ (∀ o ∈ m.ows, Spec.isOwsList o.1 = true ∧ Spec.isOwsList o.2 = true) ∧
+  bodyOnWire m ∧
+  isLastRequest m.head.version m.head.headers = true ∧
+  (⟨Extracted.maxVersion.1, Extracted.maxVersion.2⟩ : Version).lt m.head.version = false
+
+/-- what `closingRequest` covers, in the words of the statement: the request's Connection header
+    does not name `upgrade` (such a head is framed as an upgrade, which `bodyOnWire` excludes); so
+    an HTTP/1.1 closing request is one whose Connection header contains `close`, and an HTTP/1.0
+    closing request is one whose Connection header, if any, contains `close` or lacks `keep-alive`. -/
+theorem closingRequest_covers (m : CMsg) (h : closingRequest m) :
+    (∀ c, findHeader m.head.headers b!"Connection" = some c →
+      containsSub (lower c.value) b!"upgrade" = false) ∧
+    (m.head.version ≠ ⟨1, 0⟩ →
+      ∃ c, findHeader m.head.headers b!"Connection" = some c ∧ containsSub (lower c.value) b!"close" = true) ∧
+    (m.head.version = ⟨1, 0⟩ →
+      ∀ c, findHeader m.head.headers b!"Connection" = some c →
+        containsSub (lower c.value) b!"close" = true ∨ containsSub (lower c.value) b!"keep-alive" = false) := by
+  obtain ⟨head, ows, body⟩ := m
+  obtain ⟨_, _, hbody, hlast, _⟩ := h
+  have hup : ∀ c, findHeader head.headers b!"Connection" = some c →
+      containsSub (lower c.value) b!"upgrade" = false := by
+    intro c hc
+    cases hu : containsSub (lower c.value) b!"upgrade" with
+    | false => rfl
+    | true =>
+      have hk := fun fr => framingOf_kind_upgrade head.headers fr c hc hu
+      cases body with
+      | plain B =>
+        rcases hbody with hfr | hfr | ⟨_, hfr⟩ <;> exact absurd (hk _ hfr) (by simp)
+      | chunked cs zero => exact absurd (hk _ hbody.1) (by simp)
+      | absent => exact absurd (hk _ hbody) (by simp)
+  refine ⟨hup, ?_, ?_⟩
+  · intro hv
+    have hv' : (head.version == (⟨1, 0⟩ : Version)) = false := by simpa using hv
+    show ∃ c, findHeader head.headers b!"Connection" = some c ∧ _
+    simp only [isLastRequest] at hlast
+    cases hc : findHeader head.headers b!"Connection" with
+    | none => rw [hc] at hlast; simp [hv'] at hlast
+    | some c =>
+      rw [hc] at hlast
+      simp only [hup c hc, hv', Bool.and_false, Bool.false_eq_true, if_false] at hlast
+      refine ⟨c, rfl, ?_⟩
+      cases hcl : containsSub (lower c.value) b!"close" with
+      | true => rfl
+      | false => simp [hcl] at hlast
+  · intro hv c hc
+    show containsSub (lower c.value) b!"close" = true ∨ _
+    simp only [isLastRequest] at hlast
+    have hc' : findHeader head.headers b!"Connection" = some c := hc
+    rw [hc'] at hlast
+    cases hcl : containsSub (lower c.value) b!"close" with
+    | true => exact Or.inl rfl
+    | false =>
+      right
+      cases hka : containsSub (lower c.value) b!"keep-alive" with
+      | false => rfl
+      | true => simp [hcl, hup c hc, hka] at hlast
+
+theorem wellBodied_bodyOnWire (m : CMsg) (h : wellBodied m) : bodyOnWire m := by
+  obtain ⟨head, ows, body⟩ := m
+  cases body <;> exact h.2.2.1
+
+/-- such a request is framed in the sense of `Lemmas/PipelineClosing`, whether or not it ends the
+    connection and however the client's stream ends. -/
+theorem framedMsg_of_bodyOnWire (m : CMsg) (fin : EndState)
+    (hwf : Spec.wfHead m.head = true)
+    (hows : ∀ o ∈ m.ows, Spec.isOwsList o.1 = true ∧ Spec.isOwsList o.2 = true)
+    (hbody : bodyOnWire m)
+    (hver : (⟨Extracted.maxVersion.1, Extracted.maxVersion.2⟩ : Version).lt m.head.version = false) :
+    FramedMsg m.head m.ows m.body.wire m.body.payload m.body.declared fin := by
+  obtain ⟨head, ows, body⟩ := m
+  refine ⟨hwf, hows, hver, ?_⟩
+  cases body with
+  | plain B =>
+    rcases hbody with hfr | hfr | ⟨hB, hfr⟩
+    · exact ⟨_, hfr, rfl, bodyFramed_buffered head B _ _ fin⟩
+    · exact ⟨_, hfr, rfl, bodyFramed_limited head B _ _ fin⟩
+    · subst hB
+      exact ⟨_, hfr, rfl, bodyFramed_empty head _ _ fin⟩
+  | chunked cs zero =>
+    obtain ⟨hfr, hcs, hz⟩ := hbody
+    exact ⟨_, hfr, rfl, bodyFramed_chunked head cs zero _ _ fin hcs hz⟩
+  | absent =>
+    exact ⟨_, hbody, rfl, bodyFramed_empty head _ _ fin⟩
+
+/-- The run on `msgs`, then `last`, then anything: there is ONE final state `s` — determined by
+    the requests, the script and the way the client's stream ends, not by the bytes after `last`
+    — in which the server closes. -/
+theorem closing_run (msgs : List CMsg) (last : CMsg) (fin : EndState) (script : Script)
+    (hgood : ∀ m ∈ msgs, wellBodied m) (hlast : closingRequest last) :
+    ∃ s : St,
+      s.delivered.map (fun d => (d.method, d.url, d.version, d.headers, d.bodyLength)) =
+        (msgs ++ [last]).map
+          (fun m => (m.head.method, m.head.url, m.head.version, m.head.headers, m.body.declared)) ∧
+      s.delivered.map (·.last) = List.replicate msgs.length false ++ [true] ∧
+      (∀ (i : Nat) (d : Delivered) (m : CMsg), s.delivered[i]? = some d → (msgs ++ [last])[i]? = some m →
+        d.bodyRead <+: m.body.payload) ∧
+      ∀ tail : Bytes,
+        Conn.run ((msgs.map cmsgBytes).flatten ++ cmsgBytes last ++ tail) fin script = s.finish .closed := by
+  obtain ⟨lwf, lows, lbody, llast, lver⟩ := hlast
+  obtain ⟨s1, ds, hdel1, hmap, hflags, hpres, hrun1⟩ :=
+    framed_pipeline CMsg.head CMsg.ows (fun m => m.body.wire) (fun m => m.body.payload)
+      (fun m => m.body.declared) fin msgs
+      (fun m hm => ⟨framedMsg_of_bodyOnWire m fin (hgood m hm).1 (hgood m hm).2.1
+        (wellBodied_bodyOnWire m (hgood m hm)) (hgood m hm).2.2.2.2, (hgood m hm).2.2.2.1⟩)
+      0 {} script
+  obtain ⟨s2, d, hdel2, hd, hdl, hpre, hrun2⟩ :=
+    framed_step last.head last.ows last.body.wire last.body.payload last.body.declared fin
+      (framedMsg_of_bodyOnWire last fin lwf lows lbody lver) (0 + msgs.length) s1 script
+  have hdel1' : s1.delivered = ds := by rw [hdel1]; exact List.nil_append _
+  have hs2 : s2.delivered = ds ++ [d] := by rw [hdel2, hdel1']
+  have hdsl : ds.length = msgs.length := by simpa using congrArg List.length hmap
+  refine ⟨s2, ?_, ?_, ?_, ?_⟩
+  · rw [hs2, List.map_append, List.map_append, hmap]
+    simp only [List.map_cons, List.map_nil, hd]
+  · rw [hs2, List.map_append]
+    congr 1
+    · rw [← hdsl]
+      clear hs2 hdel1' hdel1 hmap hpres hdsl
+      induction ds with
+      | nil => rfl
+      | cons x xs ih =>
+        simp only [List.map_cons, List.length_cons, List.replicate_succ]
+        rw [hflags x (by simp), ih (fun y hy => hflags y (by simp [hy]))]
+    · simp only [List.map_cons, List.map_nil, hdl, llast]
+  · intro i d' m h1 h2
+    rw [hs2] at h1
+    by_cases hi : i < msgs.length
+    · rw [List.getElem?_append_left (by omega)] at h1 h2
+      exact hpres i d' m h1 h2
+    · rw [List.getElem?_append_right (by omega)] at h1 h2
+      rw [hdsl] at h1
+      cases hj : i - msgs.length with
+      | zero =>
+        rw [hj] at h1 h2
+        simp only [List.getElem?_cons_zero, Option.some.injEq] at h1 h2
+        subst h1 h2
+        exact hpre
+      | succ j =>
+        rw [hj] at h2
+        simp at h2
+  · intro tail
+    have hl : msgs.length ≤ ((msgs.map cmsgBytes).flatten).length :=
+      generic_pipeline_length_ge CMsg.head CMsg.ows (fun m => m.body.wire) msgs
+    have e : (msgs.map cmsgBytes).flatten ++ cmsgBytes last ++ tail =
+        (msgs.map (fun x => Spec.renderHead (CMsg.head x) (CMsg.ows x) ++ x.body.wire)).flatten ++
+          (Spec.renderHead last.head last.ows ++ (last.body.wire ++ tail)) := by
+      simp only [cmsgBytes, List.append_assoc]
+      rfl
+    unfold Conn.run
+    generalize hF : ((msgs.map cmsgBytes).flatten ++ cmsgBytes last ++ tail).length + 1 = F
+    have hFge : msgs.length + 1 ≤ F := by
+      rw [← hF]
+      simp only [List.length_append]
+      omega
+    obtain ⟨k, hk⟩ : ∃ k, F - msgs.length = k + 1 := ⟨F - msgs.length - 1, by omega⟩
+    rw [e, hrun1 F _ (by omega), hk, hrun2 k tail, llast]
+    simp only [if_true]
+
+/-- C12, end to end, first half.  A pipeline of any number of requests on a connection that
+    stays open (each with a Content-Length body, a chunked body or none), then a request `last`
+    that ENDS the connection (an HTTP/1.1 request with `Connection: close`, or an HTTP/1.0 request
+    without `Connection: keep-alive`; its body Content-Length delimited, chunked or absent, all of
+    it on the wire; no `Connection: upgrade`), then ARBITRARY bytes `tail`; the application
+    behaves in ANY way (`script`: reads all / part / none of each body, answers, drops, takes the
+    raw writer, upgrades, fails); the client then stays connected, closes or resets (`fin`).  Then
+    * exactly `msgs.length + 1` requests are delivered: the heads of `msgs`, then the head of
+      `last`; only the last one is marked as ending the connection; each handler obtained a
+      prefix of its own request's content;
+    * the server closes (`ending = .closed`) — although the client may still be connected and
+      although unread bytes are pending — with everything it wrote flushed;
+    * no byte of `tail` is interpreted or has any influence: the whole trace (requests delivered,
+      what each handler read, every byte sent, statuses, ending) is the same for every `tail'`.
+    No hypothesis on the script is needed: with the body on the wire no handler blocks, and no
+    `Finish` (not even `.upgrade` on a request that did not ask for it) keeps the connection. -/
+theorem pipeline_then_closing_request (msgs : List CMsg) (last : CMsg) (tail : Bytes) (fin : EndState)
+    (script : Script) (hgood : ∀ m ∈ msgs, wellBodied m) (hlast : closingRequest last) :
+    let t := Conn.run ((msgs.map cmsgBytes).flatten ++ cmsgBytes last ++ tail) fin script
+    t.delivered.map (fun d => (d.method, d.url, d.version, d.headers, d.bodyLength)) =
+        (msgs ++ [last]).map
+          (fun m => (m.head.method, m.head.url, m.head.version, m.head.headers, m.body.declared)) ∧
+      t.delivered.length = msgs.length + 1 ∧
+      t.delivered.map (·.last) = List.replicate msgs.length false ++ [true] ∧
+      (∀ (i : Nat) (d : Delivered) (m : CMsg), t.delivered[i]? = some d → (msgs ++ [last])[i]? = some m →
+        d.bodyRead <+: m.body.payload) ∧
+      t.ending = .closed ∧
+      t.flushed = t.out.length ∧
+      ∀ tail' : Bytes,
+        Conn.run ((msgs.map cmsgBytes).flatten ++ cmsgBytes last ++ tail') fin script = t := by
+  intro t
+  obtain ⟨s, h1, h2, h3, h4⟩ := closing_run msgs last fin script hgood hlast
+  have ht : t = s.finish .closed := h4 tail
+  rw [ht]
+  refine ⟨h1, ?_, h2, h3, rfl, finish_closed_flushed s, h4⟩
+  have := congrArg List.length h1
+  simpa using this
+
+/-- the trace does not depend on what follows the closing request (`pipeline_then_closing_request`,
+    last clause, on its own): a request smuggled after it is never seen. -/
+theorem bytes_after_closing_request_ignored (msgs : List CMsg) (last : CMsg) (tail tail' : Bytes)
+    (fin : EndState) (script : Script) (hgood : ∀ m ∈ msgs, wellBodied m) (hlast : closingRequest last) :
+    Conn.run ((msgs.map cmsgBytes).flatten ++ cmsgBytes last ++ tail) fin script =
+      Conn.run ((msgs.map cmsgBytes).flatten ++ cmsgBytes last ++ tail') fin script :=
+  ((pipeline_then_closing_request msgs last tail fin script hgood hlast).2.2.2.2.2.2 tail').symm
+
+/-! ### end to end: a persistent connection is not closed by the server -/
+
+/-- C12, end to end, second half.  A pipeline of any number of requests none of which ends the
+    connection, after which the client stays connected and silent (`.open`): every request is
+    delivered (none marked as the last, each handler obtaining a prefix of its own request's
+    content) and the connection thread then WAITS for the next request — the server does not
+    close a persistent connection on its own.  This holds for every script: in the model no
+    `Finish` ends the connection (neither `.upgrade` on a request that did not ask for it nor a
+    failing `respond`), and with the bodies on the wire no handler blocks. -/
+theorem open_pipeline_waits (msgs : List CMsg) (script : Script) (hgood : ∀ m ∈ msgs, wellBodied m) :
+    let t := Conn.run ((msgs.map cmsgBytes).flatten) .open script
+    t.delivered.map (fun d => (d.method, d.url, d.version, d.headers, d.bodyLength)) =
+        msgs.map (fun m => (m.head.method, m.head.url, m.head.version, m.head.headers, m.body.declared)) ∧
+      (∀ d ∈ t.delivered, d.last = false) ∧
+      (∀ (i : Nat) (d : Delivered) (m : CMsg), t.delivered[i]? = some d → msgs[i]? = some m →
+        d.bodyRead <+: m.body.payload) ∧
+      t.ending = .waiting := by
+  intro t
+  obtain ⟨s1, ds, hdel1, hmap, hflags, hpres, hrun1⟩ :=
+    framed_pipeline CMsg.head CMsg.ows (fun m => m.body.wire) (fun m => m.body.payload)
+      (fun m => m.body.declared) .open msgs
+      (fun m hm => ⟨framedMsg_of_bodyOnWire m .open (hgood m hm).1 (hgood m hm).2.1
+        (wellBodied_bodyOnWire m (hgood m hm)) (hgood m hm).2.2.2.2, (hgood m hm).2.2.2.1⟩)
+      0 {} script
+  have hdel1' : s1.delivered = ds := by rw [hdel1]; exact List.nil_append _
+  have hl : msgs.length ≤ ((msgs.map cmsgBytes).flatten).length :=
+    generic_pipeline_length_ge CMsg.head CMsg.ows (fun m => m.body.wire) msgs
+  obtain ⟨k, hk⟩ : ∃ k, ((msgs.map cmsgBytes).flatten).length + 1 - msgs.length = k + 1 :=
+    ⟨((msgs.map cmsgBytes).flatten).length - msgs.length, by omega⟩
+  have ht : t = s1.finish .waiting := by
+    have := hrun1 (((msgs.map cmsgBytes).flatten).length + 1) [] (by omega)
+    rw [List.append_nil, hk] at this
+    have hh : readHead [] .open = .error (.stop .pending) := by decide
+    refine Eq.trans this ?_
+    simp only [runLoop, hh]
+  rw [ht]
+  refine ⟨?_, ?_, ?_, rfl⟩
+  · rw [St.finish_delivered, hdel1', hmap]
+  · intro d hd
+    rw [St.finish_delivered, hdel1'] at hd
+    exact hflags d hd
+  · intro i d m h1 h2
+    rw [St.finish_delivered, hdel1'] at h1
+    exact hpres i d m h1 h2
+
+/-! non-vacuity: `GET /a HTTP/1.1`, a `POST /b HTTP/1.1` with a chunked body of two chunks, then
+    `GET /c HTTP/1.1` with `Connection: close`, then a smuggled request -/
+
+def exA : CMsg := ⟨⟨⟨b!"GET"⟩, b!"/a", ⟨1, 1⟩, []⟩, [], .absent⟩
+
+def exB : CMsg :=
+  ⟨⟨⟨b!"POST"⟩, b!"/b", ⟨1, 1⟩, [⟨b!"Transfer-Encoding", b!"chunked"⟩]⟩, [(b!" ", [])],
+    .chunked [⟨b!"5", [], b!"hello"⟩, ⟨b!"0A", b!";x=y", b!"0123456789"⟩] b!"0"⟩
+
+def exC : CMsg := ⟨⟨⟨b!"GET"⟩, b!"/c", ⟨1, 1⟩, [⟨b!"Connection", b!"close"⟩]⟩, [(b!" ", [])], .absent⟩
+
+/-- the closing request of an HTTP/1.0 client: no Connection header at all -/
+def exC10 : CMsg := ⟨⟨⟨b!"GET"⟩, b!"/c", ⟨1, 0⟩, []⟩, [], .absent⟩
+
+/-- a closing request with a Content-Length body -/
+def exCBody : CMsg :=
+  ⟨⟨⟨b!"POST"⟩, b!"/c", ⟨1, 1⟩, [⟨b!"Connection", b!"close"⟩, ⟨b!"Content-Length", b!"5"⟩]⟩,
+    [(b!" ", []), (b!" ", [])], .plain b!"world"⟩
+
+def exTail : Bytes := b!"GET /smuggled HTTP/1.1\r\n\r\n"
+
+/-- the bytes on the wire -/
+example : ([exA, exB].map cmsgBytes).flatten ++ cmsgBytes exC ++ exTail =
+    b!"GET /a HTTP/1.1\r\n\r\nPOST /b HTTP/1.1\r\nTransfer-Encoding: chunked\r\n\r\n5\r\nhello\r\n0A;x=y\r\n0123456789\r\n0\r\n\r\nGET /c HTTP/1.1\r\nConnection: close\r\n\r\nGET /smuggled HTTP/1.1\r\n\r\n" := by
+  decide
+
+/-- the hypotheses of `pipeline_then_closing_request` / `open_pipeline_waits` hold of them -/
+theorem ex_wellBodied : ∀ m ∈ [exA, exB], wellBodied m := by
+  intro m hm
+  simp only [List.mem_cons, List.not_mem_nil, or_false] at hm
+  rcases hm with rfl | rfl
+  · refine ⟨by decide, by decide, ?_, by decide, by decide⟩
+    show framingOf exA.head.headers = .ok ⟨.empty, none, false⟩
+    decide
+  · refine ⟨by decide, by decide, ?_, by decide, by decide⟩
+    show framingOf exB.head.headers = .ok ⟨.chunked, none, false⟩ ∧
+      (∀ c ∈ [(⟨b!"5", [], b!"hello"⟩ : Spec.SentChunk), ⟨b!"0A", b!";x=y", b!"0123456789"⟩],
+        Spec.wfChunk c = true) ∧
+      (usizeFromHex b!"0" = some 0 ∧ (b!"0").all (fun b => b != 13 && b != 59 && b < 128) = true ∧
+        trim b!"0" = b!"0")
+    decide
+
+theorem ex_closing : closingRequest exC := by
+  refine ⟨by decide, by decide, ?_, by decide, by decide⟩
+  show framingOf exC.head.headers = .ok ⟨.empty, none, false⟩
+  decide
+
+theorem ex_closing10 : closingRequest exC10 := by
+  refine ⟨by decide, by decide, ?_, by decide, by decide⟩
+  show framingOf exC10.head.headers = .ok ⟨.empty, none, false⟩
+  decide
+
+theorem ex_closingBody : closingRequest exCBody := by
+  refine ⟨by decide, by decide, ?_, by decide, by decide⟩
+  show framingOf exCBody.head.headers = .ok ⟨.buffered (b!"world").length, some (b!"world").length, false⟩ ∨ _
+  exact Or.inl (by decide)
+
+/-- so the theorem applies, with every script and every way the client's stream ends: three
+    requests, then the server closes; the smuggled request changes nothing -/
+example (script : Script) (fin : EndState) :
+    let t := Conn.run (([exA, exB].map cmsgBytes).flatten ++ cmsgBytes exC ++ exTail) fin script
+    t.delivered.map (fun d => (d.method, d.url, d.version)) =
+        [(⟨b!"GET"⟩, b!"/a", ⟨1, 1⟩), (⟨b!"POST"⟩, b!"/b", ⟨1, 1⟩), (⟨b!"GET"⟩, b!"/c", ⟨1, 1⟩)] ∧
+      t.ending = .closed ∧ t.flushed = t.out.length ∧
+      Conn.run (([exA, exB].map cmsgBytes).flatten ++ cmsgBytes exC) fin script = t := by
+  intro t
+  obtain ⟨h1, _, _, _, h5, h6, h7⟩ :=
+    pipeline_then_closing_request [exA, exB] exC exTail fin script ex_wellBodied ex_closing
+  refine ⟨?_, h5, h6, ?_⟩
+  · have := congrArg (List.map (fun x : Method × Bytes × Version × List Header × Option Nat => (x.1, x.2.1, x.2.2.1))) h1
+    rw [List.map_map] at this
+    exact this
+  · have := h7 []
+    rwa [List.append_nil] at this
+
+/-- the model run on it, the client still connected, with handlers that read 8 bytes with a
+    3-byte buffer and answer 200 -/
+def exRun : Trace :=
+  Conn.run (([exA, exB].map cmsgBytes).flatten ++ cmsgBytes exC ++ exTail) .open
+    (fun _ => ⟨1, 8, 3, .respond ⟨200, [], none, none, [b!"ok"]⟩, false⟩)
+
+set_option maxRecDepth 8192 in
+/-- three requests delivered — not the smuggled one —, only the last marked as closing, and the
+    server closes although the client is still connected (as the theorem says) -/
+example :
+    exRun.delivered.map (fun d => (d.url, d.bodyRead, d.last)) =
+        [(b!"/a", [], false), (b!"/b", b!"hello012", false), (b!"/c", [], true)] ∧
+      exRun.statuses = [200, 200, 200] ∧ exRun.ending = .closed ∧ exRun.flushed = exRun.out.length := by
+  decide
+
+set_option maxRecDepth 8192 in
+/-- an HTTP/1.0 request without `Connection: keep-alive` as the closing request -/
+example :
+    let t := Conn.run (([exA, exB].map cmsgBytes).flatten ++ cmsgBytes exC10 ++ exTail) .open
+      (fun _ => ⟨0, 0, 1, .drop, false⟩)
+    t.delivered.map (fun d => (d.url, d.version, d.last)) =
+        [(b!"/a", ⟨1, 1⟩, false), (b!"/b", ⟨1, 1⟩, false), (b!"/c", ⟨1, 0⟩, true)] ∧
+      t.statuses = [500, 500, 500] ∧ t.ending = .closed := by
+  decide
+
+example (script : Script) (fin : EndState) (tail : Bytes) :
+    (Conn.run (([exA, exB].map cmsgBytes).flatten ++ cmsgBytes exC10 ++ tail) fin script).ending = .closed :=
+  (pipeline_then_closing_request [exA, exB] exC10 tail fin script ex_wellBodied ex_closing10).2.2.2.2.1
+
+example (script : Script) (fin : EndState) (tail : Bytes) :
+    (Conn.run (([exA, exB].map cmsgBytes).flatten ++ cmsgBytes exCBody ++ tail) fin script).ending = .closed :=
+  (pipeline_then_closing_request [exA, exB] exCBody tail fin script ex_wellBodied ex_closingBody).2.2.2.2.1
+
+/-- without a closing request and with the client silent the server waits, whatever the script -/
+example (script : Script) :
+    (Conn.run (([exA, exB].map cmsgBytes).flatten) .open script).ending = .waiting :=
+  (open_pipeline_waits [exA, exB] script ex_wellBodied).2.2.2
+
+/-- not even a handler that answers with `upgrade` (to a request that did not ask for it) ends
+    the connection in the model: the next request is served -/
+example :
+    let t := Conn.run (([exA, exA].map cmsgBytes).flatten) .open
+      (fun _ => ⟨0, 0, 1, .upgrade b!"ws" ⟨101, [], none, none, []⟩ [.write b!"zz"], false⟩)
+    t.delivered.map (·.url) = [b!"/a", b!"/a"] ∧ t.ending = .waiting := by
+  decide
+
+/-- why `Connection: upgrade` requests are left out of `closingRequest`: the body of such a
+    request is the rest of the stream, so a handler that reads sees the bytes that follow it, and
+    with the client still connected it blocks instead of letting the server close -/
+def exUp : CMsg := ⟨⟨⟨b!"GET"⟩, b!"/c", ⟨1, 1⟩, [⟨b!"Connection", b!"upgrade"⟩]⟩, [(b!" ", [])], .absent⟩
+
+example :
+    isLastRequest exUp.head.version exUp.head.headers = true ∧
+    (Conn.run (cmsgBytes exUp ++ b!"xy") .eof (fun _ => ⟨1, 8, 3, .drop, false⟩)).delivered.map (·.bodyRead)
+      = [b!"xy"] ∧
+    (Conn.run (cmsgBytes exUp ++ b!"xy") .open (fun _ => ⟨1, 8, 3, .drop, false⟩)).ending = .waiting ∧
+    (Conn.run (cmsgBytes exUp ++ b!"xy") .open (fun _ => ⟨0, 0, 1, .drop, false⟩)).ending = .closed := by
+  decide
 
 example : isLastRequest ⟨1, 1⟩ [⟨b!"connection", b!"Keep-Alive, CLOSE"⟩] = true := by decide
 example : isLastRequest ⟨1, 0⟩ [⟨b!"Connection", b!"keep-alive"⟩] = false := by decide
